@@ -220,6 +220,9 @@ func genTraitEnum(r *rand.Rand, nm *namer, typeName string, nextBlock *int, sp t
 	u := underlyings[r.IntN(len(underlyings))]
 	e := EnumDef{Type: typeName, Under: u.name, Signed: u.signed, Bits: u.bits}
 	shape := map[string]bool{"traits": true}
+	if wideMode {
+		sp.maxCols, sp.maxConsts = 8, 45
+	}
 	n := 1 + r.IntN(sp.maxConsts)
 	ncols := 1 + r.IntN(sp.maxCols)
 	cols := make([]colKind, ncols)
